@@ -341,19 +341,21 @@ vf::ConfigEntry& vf::the_config() {
 ''' % dict(header=header, plist=plist, al=al, names=names, decls=decls, name=cfg['name'], descr=descr(cfg))
 
 
-def emit_tu_c19(cfg):
+def emit_tu_c19(cfg, racy=False):
     plist = ', '.join(param_cpp(x) for x in cfg['params'])
+    vec = ('cntgs::BasicContiguousVector<cntgs::Options<cntgs::Allocator<c19::RacyAlloc<std::byte>>>, %s>' % plist) if racy \
+        else ('cntgs::ContiguousVector<%s>' % plist)
     return '''// generated by gen/configs.py (C19) -- do not edit
 #include "c19.hpp"
 namespace {
 using LI = vf::ListInfo<%(plist)s>;
-using Vec = cntgs::ContiguousVector<%(plist)s>;
+using Vec = %(vec)s;
 }  // namespace
 c19::Entry& c19::the_entry() {
   static c19::Entry e{"%(name)s", "%(descr)s", LI::ALL_COPYABLE, &c19::Runner<LI, Vec>::run};
   return e;
 }
-''' % dict(plist=plist, name=cfg['name'], descr=descr(cfg))
+''' % dict(plist=plist, vec=vec, name=cfg['name'] + ('+racyalloc' if racy else ''), descr=descr(cfg) + (' | allocator with unsynchronised state (copies via select_on_container_copy_construction are stateless)' if racy else ''))
 
 
 def parse_name(name):
